@@ -295,6 +295,7 @@ mod c13 {
     // STATUS: did not close on the shared machine (CBMC > 1500 s or > 12 GB); see report
     // TIER: thorough
     // KIND: complete
+    #[cfg(verif_unclosed)] // does not close
     #[kani::proof]
     #[kani::unwind(18)]
     fn c13_table_queries_any_len() {
@@ -345,6 +346,7 @@ mod c13 {
     // STATUS: did not close on the shared machine (CBMC > 1500 s or > 12 GB); see report
     // TIER: thorough
     // KIND: complete
+    #[cfg(verif_unclosed)] // full-capacity table does not close
     #[kani::proof]
     #[kani::unwind(18)]
     fn c13_purge_up_to_full() {
@@ -496,6 +498,7 @@ mod c13 {
     // STATUS: did not close on the shared machine (CBMC > 1500 s or > 12 GB); see report
     // TIER: thorough
     // KIND: complete
+    #[cfg(verif_unclosed)] // full-capacity table does not close
     #[kani::proof]
     #[kani::unwind(18)]
     #[kani::stub(crate::im::subscriptions::ChangedAttrs::promote_and_insert, contract_promote_and_insert)]
@@ -507,6 +510,7 @@ mod c13 {
     // STATUS: did not close on the shared machine (CBMC > 1500 s or > 12 GB); see report
     // TIER: thorough
     // KIND: complete
+    #[cfg(verif_unclosed)] // does not close
     #[kani::proof]
     #[kani::unwind(18)]
     #[kani::stub(crate::im::subscriptions::ChangedAttrs::promote_and_insert, never_called_promote_and_insert)]
@@ -537,6 +541,7 @@ mod c13 {
     // STATUS: did not close on the shared machine (CBMC > 1500 s or > 12 GB); see report
     // TIER: thorough
     // KIND: complete
+    #[cfg(verif_unclosed)] // full-capacity table does not close
     #[kani::proof]
     #[kani::unwind(18)]
     #[kani::stub(crate::im::subscriptions::ChangedAttrs::promote_largest_group, contract_promote_largest_group)]
@@ -614,6 +619,7 @@ mod c13 {
     // STATUS: did not close on the shared machine (CBMC > 1500 s or > 12 GB); see report
     // TIER: thorough
     // KIND: complete
+    #[cfg(verif_unclosed)] // full-capacity table does not close
     #[kani::proof]
     #[kani::unwind(18)]
     fn c13_promote_largest_group_full() {
